@@ -17,6 +17,7 @@ mod suite_ffixed;
 mod suite_fmap;
 mod suite_fclone;
 mod suite_forest;
+mod suite_fspec;
 mod suite_rt;
 mod idmap_hist;
 mod idmap_oracle;
@@ -54,6 +55,7 @@ fn main() {
         "tree" => suite_tree::run(seed, count, tier, &mut sink),
         "cmp" => suite_cmp::run(seed, count, tier, &mut sink),
         "forest" => suite_forest::run(seed, count, tier, &mut sink),
+        "fspec" => suite_fspec::run(seed, count, tier, &mut sink),
         "rt" => suite_rt::run(seed, count, tier, &mut sink),
         "exec-forest" => suite_forest::exec_stdin(&mut sink),
         "idmap" => suite_idmap::run(seed, count, tier, &mut sink),
